@@ -69,6 +69,9 @@ func script(rng *vh.RNG, d *dg.Design, s *dg.Service, m *dg.Method, it *built, w
 					if k > 0 {
 						sp.Timeout, sp.Temporary, sp.Fault = rng.Bool(), rng.Bool(), rng.Bool()
 					}
+					if e.Resp.Body != nil && e.Resp.Body.Attr == "message" && k > 0 {
+						sp.Message = messages[k] // the body attribute itself is not header-carried: empty, line breaks
+					}
 					out = append(out, scase{Class: "declared", ErrName: e.Def.Name, Err: sp})
 					continue
 				}
